@@ -714,6 +714,26 @@ impl DiscoveryDB {
       .and_then(|m| m.values().next().map(|t| &t.1))
   }
 
+  // All remote writers we currently know on a topic, from any participant.
+  pub fn writers_on_topic(&self, topic_name: &str) -> Vec<DiscoveredWriterData> {
+    self
+      .external_topic_writers
+      .values()
+      .filter(|dwd| dwd.publication_topic_data.topic_name == topic_name)
+      .cloned()
+      .collect()
+  }
+
+  // All remote readers we currently know on a topic, from any participant.
+  pub fn readers_on_topic(&self, topic_name: &str) -> Vec<DiscoveredReaderData> {
+    self
+      .external_topic_readers
+      .values()
+      .filter(|drd| drd.subscription_topic_data.topic_name() == topic_name)
+      .cloned()
+      .collect()
+  }
+
   pub fn writers_on_topic_and_participant(
     &self,
     topic_name: &str,
